@@ -320,6 +320,10 @@ def judge(line, impl, model):
     if impl.startswith("FAULT"):
         out.append(("violation", "implementation did not survive the case: " + impl))
         return out
+    if is_builder and " RT=" in impl:
+        impl, _, rt = impl.rpartition(" RT=")
+        if rt != "same":
+            out.append(("violation", "a file written with the builder's schema is read back with different columns/levels: " + rt))
     if mtxt.startswith("FAULT") or mtxt.startswith("RUNNER-ERROR"):
         out.append(("tie", "model: " + mtxt[:200]))
     elif impl != mtxt:
